@@ -108,6 +108,14 @@ ATTR_NAMES = ("color", "w", "tag", "weight")
 ATTR_VALUES = ("red", "blue", 1, 2, 3, 0.5, True, None, ("t", 1))
 
 
+def has(seq, x):
+    """`x in seq` by hash (a list scan would evaluate e.g. tuple == numpy scalar, which numpy answers elementwise)."""
+    try:
+        return x in set(seq)
+    except TypeError:
+        return any(x is y for y in seq)
+
+
 def rand_attrs(rng, p=0.5, maxn=2):
     if rng.random() > p:
         return {}
@@ -160,7 +168,7 @@ class HGen:
     def some_node(self, missing_p=0.12):
         if self.nodes and self.rng.random() > missing_p:
             return self.rng.choice(self.nodes), False
-        cand = [n for n in self.npool + self.extra_nodes if n not in self.nodes]
+        cand = [n for n in self.npool + self.extra_nodes if not has(self.nodes, n)]
         if cand:
             return self.rng.choice(cand), True
         return self.rng.choice(self.nodes), False
@@ -168,7 +176,7 @@ class HGen:
     def some_edge(self, missing_p=0.12):
         if self.edges and self.rng.random() > missing_p:
             return self.rng.choice(self.edges), False
-        cand = [e for e in self.epool if e not in self.edges] or ["nope"]
+        cand = [e for e in self.epool if not has(self.edges, e)] or ["nope"]
         return self.rng.choice(cand), True
 
     def new_members(self, lo=1, hi=4):
@@ -185,7 +193,7 @@ class HGen:
         idx = rng.choice(self.epool)
         if self.hostile and r > 0.9:
             idx = rng.choice([0, True, 2.0, -1, 7])
-        if idx in self.edges:
+        if has(self.edges, idx):
             tags.add("dup-id")
         if isinstance(idx, (int, float)) and idx == 0:
             tags.add("idx0")
@@ -275,7 +283,7 @@ class HGen:
                 ms = as_container(rng, ms)
             if fmt in (2, 4, 5):
                 idx, t2 = self.explicit_id()
-                if idx in ids:
+                if has(ids, idx):
                     t2.add("dup-id")
                     if fmt == 5:
                         continue
@@ -557,7 +565,7 @@ class DHGen(HGen):
             tags |= t
             if fmt in (2, 4, 5):
                 idx, t2 = self.explicit_id()
-                if idx in ids:
+                if has(ids, idx):
                     t2.add("dup-id")
                     if fmt == 5:
                         continue
